@@ -523,6 +523,39 @@ def relabel(spec, perm) -> dict:
     return {"E": E, "coords": C, "ts": [[perm[u], perm[v], e, c] for u, v, e, c in spec["ts"]]}
 
 
+def build_via_gate(spec: dict):
+    """the same landscape registered the way the samplers register it: every transition state is offered to
+    `StandardSimilarity.test_new_ts` together with the two minima it leads to (in the order of the list, so that a
+    minimum may first be met through a self-connection), then every minimum through `test_new_minimum`.  Returns None
+    when two stationary points of the spec would match each other (the gate is then right to merge them)."""
+    from topsearch.data.coordinates import StandardCoordinates
+    from topsearch.data.kinetic_transition_network import KineticTransitionNetwork
+    from topsearch.similarity.similarity import StandardSimilarity
+    E, X, ts = spec["E"], [np.array(c, dtype=float) for c in spec["coords"]], spec["ts"]
+    if not X:
+        return None
+    dim = len(X[0])
+    T = [np.array((list(c) + [0.0] * dim)[:dim], dtype=float) for _, _, _, c in ts]
+    for pts in (X, T):
+        for a in range(len(pts)):
+            for b in range(a + 1, len(pts)):
+                if float(np.linalg.norm(pts[a] - pts[b])) < 0.05:
+                    return None
+    if len({(min(int(u), int(v)), max(int(u), int(v))) for u, v, _, _ in ts}) != len(ts):
+        return None                                    # a second transition state for a pair replaces the first
+    lim = 10.0 + max([float(np.max(np.abs(p))) for p in X + T])
+    coords = StandardCoordinates(ndim=dim, bounds=[(-lim, lim)] * dim)
+    sim = StandardSimilarity(0.01, 1e-3)
+    k = KineticTransitionNetwork()
+    for (u, v, e, _c), t in zip(ts, T):
+        coords.position = t.copy()
+        sim.test_new_ts(k, coords, float(e), X[int(u)].copy(), float(E[int(u)]), X[int(v)].copy(), float(E[int(v)]))
+    for x, e in zip(X, E):
+        coords.position = x.copy()
+        sim.test_new_minimum(k, coords, float(e))
+    return k
+
+
 def pred_roughness(spec, perm, shift, lam, order) -> tuple | None:
     from topsearch.analysis.roughness import roughness_metric
     n = len(spec["E"])
@@ -533,6 +566,20 @@ def pred_roughness(spec, perm, shift, lam, order) -> tuple | None:
     r = float(roughness_metric(build(spec)))
     rep = {"pred": "roughness", "spec": spec, "perm": perm, "shift": shift, "lam": lam, "order": order}
     scale = max(1.0, abs(r), max((abs(t[2]) for t in spec["ts"]), default=0.0))
+    # a landscape is what it is however it was registered: through the samplers' gate the same stationary points give
+    # the same number of minima and the same roughness (numbering follows the order of discovery; the metric does not
+    # depend on it)
+    kg = build_via_gate(spec) if not (spec.get("file_order") or spec.get("scratch") or spec.get("int_first")) else None
+    if kg is not None:
+        touched = n
+        if kg.n_minima != touched or kg.n_ts != len(spec["ts"]):
+            return ("roughness_metric:landscape-through-gate", f"{n} distinct minima and {len(spec['ts'])} transition states "
+                    f"registered through test_new_ts / test_new_minimum give a network of {kg.n_minima} minima and {kg.n_ts} "
+                    "transition states", rep)
+        rg = float(roughness_metric(kg))
+        if abs(rg - r) > 1e-9 * scale:
+            return ("roughness_metric:landscape-through-gate", f"roughness {r} of the landscape becomes {rg} when the same "
+                    "stationary points are registered through test_new_ts / test_new_minimum", rep)
     if not r >= 0:
         return ("roughness_metric:negative", f"roughness {r} < 0", rep)
     if n < 2 and r != 0:
